@@ -183,7 +183,8 @@ def feat_case_terms(case, obs):
     if ses and so:
         for st, d in zip(ses["steps"], so["steps"]):
             (pairs if st["on"] == 0 else other).append((st, d))
-    out.append(fcase_term(obs["tables"], case["exact"], pairs, None if case["normals"] else case))
+    if pairs:
+        out.append(fcase_term(obs["tables"], case["exact"], pairs, None if case["normals"] else case))
     if other:
         out.append(fcase_term(so["other_tables"], False, other, None if ses["other"].get("normals") else ses["other"]))
     return out
@@ -227,9 +228,18 @@ def shrink(case, key, budget=25.0):
             return False
         return any(k == key for k, _ in fs)
 
+    def pick_start(c, k):
+        """keep only start number k (and the default-start call), with its call form"""
+        forms = c.get("start_forms") or ["omit"] + ["int"] * len(c["starts"])
+        return dict(c, starts=[c["starts"][k]], start_forms=[forms[0], forms[k + 1]])
+
+    def no_starts(c):
+        forms = c.get("start_forms") or ["omit"]
+        return dict(c, starts=[], start_forms=forms[:1])
+
     cur = dict(case)
     if key.startswith("reused-"):
-        cur2 = dict(cur, starts=[], dets=[])
+        cur2 = dict(no_starts(cur), dets=[])
         if still(cur2):
             cur = cur2
         ses = cur["session"]
@@ -247,7 +257,7 @@ def shrink(case, key, budget=25.0):
                 ses = cand
         cur = dict(cur, session=ses)
     elif key.startswith("features"):
-        cur2 = dict(cur, starts=[], session=None)
+        cur2 = dict(no_starts(cur), session=None)
         if still(cur2):
             cur = cur2
         for d in list(cur["dets"]):
@@ -260,13 +270,13 @@ def shrink(case, key, budget=25.0):
         if still(cur2):
             cur = cur2
         if key.startswith("cycle"):
-            for s in list(cur["starts"]):
-                cur2 = dict(cur, starts=[s])
+            for k in range(len(cur["starts"])):
+                cur2 = pick_start(cur, k)
                 if still(cur2):
                     cur = cur2
                     break
         else:
-            cur2 = dict(cur, starts=[])
+            cur2 = no_starts(cur)
             if still(cur2):
                 cur = cur2
     changed = True
@@ -323,7 +333,7 @@ def build_bridge(ctx):
 # ---------------------------------------------------------------------- the check
 def run(ctx):
     quick = ctx.tier == "quick"
-    n = 500 if quick else 12000
+    n = 400 if quick else 12000
     ctx.rule = ("oriented manifold polygon surfaces (<= 60/90 faces) from seeds (polygons, grids, annuli, tori, solids, "
                 "unions, hinges with prescribed normal pairs around both thresholds, folded roofs, flat lattices) under "
                 "face deletion / ears / chords / splits / isolated vertices, random renumbering; every border vertex, "
@@ -350,9 +360,7 @@ def run(ctx):
             if f.endswith(".json"):
                 corpus.append(json.load(open(os.path.join(cdir, f))))
     cases = corpus + [G.gen_case(ctx.rng, ctx.tier) for _ in range(n)]
-    obs = run_driver(cases, timeout=1500)
-
-    for c, o in zip(cases, obs):
+    for c in cases:
         info = c.get("info", {})
         ctx.count("seed " + str(info.get("seed_kind", "corpus")))
         ctx.count("border loops %s" % info.get("loops", "?"))
@@ -361,7 +369,16 @@ def run(ctx):
         ctx.count("hard " + str(info.get("hard", "?")))
         for e in info.get("edits", []):
             ctx.count("edit " + e)
+        for f in c.get("start_forms", []):
+            ctx.count("start passed as " + f)
+        if len(c["coords"]) > 257:
+            ctx.count("more than 257 vertices")
+        if c.get("degenerate"):
+            ctx.count("all vertices coincident (border extraction only)")
+        ctx.count("coordinates scaled by 2^%d" % c.get("scale_exp", 0))
         for d in c["dets"]:
+            ctx.count("detector built %s / called %s / option types %s / junk attributes %s"
+                      % (d.get("form", "kw"), d.get("call", "run"), d.get("types", "py"), bool(d.get("junk"))))
             ctx.count("only_border=%s" % d["only_border"])
             ctx.count("flag_corners=%s" % d["flag_corners"])
             ctx.count("corner_order=%d" % d["corner_order"])
@@ -373,33 +390,44 @@ def run(ctx):
         ctx.case_seen(strip(c), nontrivial=nontrivial,
                       sample={"faces": c["faces"][:6], "info": info} if len(c["faces"]) < 8 else None)
 
-    # 1. independent oracle on every case
+    # 1. independent oracle on every case, 2. terms of the kernel-checked correspondence; in chunks, so that the
+    #    implementation's observations of a thorough run are never all in memory at once
     failures = []
-    for idx, (c, o) in enumerate(zip(cases, obs)):
-        for key, msg in O.check_case(c, o):
-            failures.append((idx, key, msg))
+    good, bterms, fterms, fidx = [], [], [], []
+    dropped = 0
+    CH = 1000
+    for c0 in range(0, len(cases), CH):
+        chunk = cases[c0:c0 + CH]
+        obs = run_driver(chunk, timeout=1500)
+        for k, (c, o) in enumerate(zip(chunk, obs)):
+            idx = c0 + k
+            for key, msg in O.check_case(c, o):
+                failures.append((idx, key, msg))
+            if "crash" in o:
+                dropped += 1
+                continue
+            if b["model_ok"]:
+                good.append(idx)
+                bterms.append(border_case_term(c, o))
+                try:
+                    for ft in feat_case_terms(c, o):
+                        fterms.append(ft)
+                        fidx.append(idx)
+                except ValueError as ex:
+                    dropped += 1
+                    ctx.log("case %d not encodable for the correspondence: %s" % (idx, ex))
+        del obs
     unknown = [f for f in failures if not ctx.known(f[1])]
     ctx.obligation("oracle: every observation of the implementation satisfies the property restated by brute force",
                    "oracle-on-implementation", not unknown,
                    "%d failing observations (%d of listed known classes)" % (len(failures), len(failures) - len(unknown)))
 
-    # 2. kernel-checked correspondence
     bad_b = bad_f = []
     if b["model_ok"]:
-        good = [i for i, o in enumerate(obs) if "crash" not in o]
-        bterms, fterms, fidx = [], [], []
-        dropped = len(cases) - len(good)
-        for i in good:
-            bterms.append(border_case_term(cases[i], obs[i]))
-            try:
-                for ft in feat_case_terms(cases[i], obs[i]):
-                    fterms.append(ft)
-                    fidx.append(i)
-            except ValueError as ex:
-                dropped += 1
-                ctx.log("case %d not encodable for the correspondence: %s" % (i, ex))
-        bad_b = ctx.run_cases("border", HEADER, bterms, "check_border", case_type="bcase", shard=max(20, len(bterms) // 16 + 1))
-        bad_f = ctx.run_cases("features", HEADER, fterms, "check_feat", case_type="fcase", shard=max(20, len(fterms) // 16 + 1))
+        bad_b = ctx.run_cases("border", HEADER, bterms, "check_border", case_type="bcase",
+                              shard=min(250, max(20, len(bterms) // 16 + 1)))
+        bad_f = ctx.run_cases("features", HEADER, fterms, "check_feat", case_type="fcase",
+                              shard=min(250, max(20, len(fterms) // 16 + 1)))
         ctx.obligation("harness: cases dropped before the correspondence (driver crash / unencodable) stay below 2%% and "
                        "at least one case was evaluated", "harness", len(cases) > 0 and dropped * 50 <= len(cases),
                        "%d of %d dropped" % (dropped, len(cases)))
